@@ -9,15 +9,17 @@ from props import xargs_common as xc
 NASTY = [b" ", b"  ", b"-n", b"-print", b"a b", b"a\nb", b"\n", b"'q'", b'"dq"', b"{}", b"$(id)", b"*", b"?", b"[x]", b"\\", b"a\\b",
          "é".encode(), "日本".encode(), b"x" * 200, b".h", b"..x", b"a;b", b"|", b"&", b"~", b"%p", b"\\n", b"\t", b"#", b"!", b"(", b")", b",",
          b"-", b"--", b"{} {}", b"a{}b"]
+NON_UTF8 = [b"caf\xe9", b"\xff\xfe", b"a\x80b", b"\xc3(", b"x\xe2\x82"]
 SPELL = ["{r}", "./{r}", "{r}/", "{r}//", "{r}/.", "./{r}/", "{abs}", "{abs}/", ".//{r}"]
 
 
-def gen_nasty_tree(rng, max_nodes=12, max_depth=3):
+def gen_nasty_tree(rng, max_nodes=12, max_depth=3, non_utf8=False):
     count = [1]
+    pool = NASTY + (NON_UTF8 * 3 if non_utf8 else [])
 
     def mk(depth):
         ch = {}
-        for nm in rng.sample(NASTY, rng.choice([1, 2, 3, 4])):
+        for nm in rng.sample(pool, rng.choice([1, 2, 3, 4])):
             if count[0] >= max_nodes:
                 break
             count[0] += 1
